@@ -416,14 +416,14 @@ PROPS['C02'] = {
     'scope': 'shape of the emitted structs per corpus program: one struct per named complex/simple type and anonymous-typed global element, in the '
              'module of its namespace, with exactly the declared members (inherited first), names in snake_case (keywords respelled), wrapped '
              'T / Option<T> / Vec<T> by occurrence, typed by the reference mapping of DESIGN 2.2',
-    'level_text': 'Translation validation with contracts: for each corpus program the independent reader derives a ghost "shape contract" per expected '
+    'level_text': '(L2, proof, unit X) Deductive proof (Verus/Z3) for ALL document trees, against a contract-only roxmltree stand-in: the flattening functions of complex.rs emit one field per declared member in document order, Field::try_from_node sets Vec / Option / choice / attribute flags as the property words them over the enclosing groups, ElementProps / RustNode::try_from_node pick the component kind. (L3) Translation validation with contracts: for each corpus program the independent reader derives a ghost "shape contract" per expected '
                   'struct (an exhaustive destructuring pattern with the expected member names and a typed tuple of the expected member types); '
                   'the contract is checked against the text the current generator emits by Verus\' front end (rustc type checking of ghost code). '
                   'A type error inside a shape contract is the disagreement. Per program, not for all schemas.',
     'level_note': 'The deciding step is rustc\'s type checker inside Verus, not an SMT obligation (reported as translation_validation, never as proof). '
                   'Trusted: the independent reader (vp/l3/model.py) and its PascalCase/snake_case rules, valid for the corpus vocabulary. '
                   'Additionally the builtin table of field.rs::as_rust_type is PROVED for all strings (unit F, 27 rows + the named-type arm). The FLATTENING of content models is PROVED for all document trees (unit X: import_sequence_node_fields / import_choice_fields / read_sequence_node / ComplexProps::try_from_node of complex.rs, plus Field::try_from_node (occurrence flags from the property wording), ElementProps::try_from_node (anonymous-typed global elements) and RustNode::try_from_node (component kind, namespace), against a contract-only roxmltree stand-in: one field per member, in document order, nested groups flattened in place, nothing dropped or added; termination by tree height). Not covered: schemas outside the corpus, derive-generated (de)serialisers, the type of a member reached through ref= (find_node_by_xml_name: C09), the Vec/Option wrapper TEXT written by `impl WriteXml for Field` (format! output; observed at L3).',
-    'technique': 'schema-derived ghost shape contracts type-checked by Verus against the code emitted by the current generator',
+    'technique': 'contract-based deductive verification (Verus/Z3) of the reader functions of complex.rs / field.rs / element.rs / node.rs extracted from /repo each run (unit X, all document trees) + schema-derived ghost shape contracts type-checked by Verus against the code emitted by the current generator (per program)',
     'assumptions': ['independent schema reader implements DESIGN 2.1/2.2 faithfully', 'corpus names are in the vocabulary whose case conversion is unambiguous'],
 }
 PROPS['C05'] = {
@@ -575,7 +575,7 @@ PROPS['C08'] = {
     'scope': 'per corpus program with complex types defined by extension (chains of depth 1..4, fan-out, bases declared before / after / in another '
              'file, same or other namespace, own content empty / sequence / choice / attributes): the emitted struct of the derived type has the base '
              'struct\'s members first, in order, then its own, and each element member keeps the prefix of the namespace that declared it',
-    'level_text': 'Translation validation with contracts: the independent reader computes, for every derived type, the member list base-first (recursively) '
+    'level_text': '(L2, proof, unit X) Deductive proof (Verus/Z3) for ALL document trees: import_extension_fields / read_complex_content_node yield the fields of the base that the type lookup returns for the QName in base= (in the base order) followed by the members the extension declares (on the subset extension shapes: exactly members(extension)). (L3) Translation validation with contracts: the independent reader computes, for every derived type, the member list base-first (recursively) '
                   'and emits a shape contract (exhaustive destructuring pattern in that order + one typed projection per member); Verus\' front end '
                   'type-checks it against the struct the current generator emits. The namespace clause is an attribute-text comparison '
                   '(#[yaserde(prefix=..)] of each inherited/own element vs. the prefix of its declaring namespace). Per program, not for all schemas.',
@@ -584,7 +584,7 @@ PROPS['C08'] = {
                   'followed by one field per member the extension declares, in order. Assumed there: the roxmltree stand-in, find_type_by_xml_name is a function of '
                   'its arguments (WHAT it finds is C09), Field::try_from_node only named. ComplexProps::try_from_node (the dispatch on complexContent / sequence / attribute) is proved to yield the fields of the content child read last followed by one field per attribute declared after it. '
                   'Member ORDER at L3 is checked through the destructuring pattern only as far as names and types distinguish members. Trusted: the independent reader.',
-    'technique': 'schema-derived ghost shape contracts (base members first) type-checked by Verus against the emitted structs; attribute-text comparison for namespaces',
+    'technique': 'contract-based deductive verification (Verus/Z3) of import_extension_fields / read_complex_content_node extracted from /repo each run (unit X, all document trees) + schema-derived ghost shape contracts (base members first) type-checked by Verus against the emitted structs; attribute-text comparison for namespaces',
     'assumptions': ['independent schema reader implements XSD extension semantics (base content, then own content, then attributes in declaration order of each level)'],
 }
 
